@@ -18,6 +18,7 @@ def run(ctx):
     import cache_files
     cache_files.run_file_histories(ctx, camp.found)     # real file stores, real modified times
     cache_files.rebuild_then_repeat(ctx, lambda key, what, replay: camp.add("C05", key, what, replay))
+    cache_files.restored_timestamps(ctx, lambda key, what, replay: camp.add("C05", key, what, replay))
     import tz_histories
     tz_histories.run(ctx, camp.add, "C05")       # the same decisions in processes running in other time zones
     camp.eval_model()
